@@ -586,6 +586,10 @@ def set_notebook_diff_ignores(ignore_paths):
             if path in notebook_differs:
                 del notebook_differs[path]
         elif isinstance(subkeys, (list, tuple, set)):
+            # Filter the default differ for path, not a differ installed by
+            # an earlier call (key filters would otherwise pile up)
+            if path in notebook_differs:
+                del notebook_differs[path]
             notebook_differs[path] = diff_ignore_keys(notebook_differs[path], subkeys)
         else:
             raise ValueError('Invalid ignore config entry: %r: %r' % (path, subkeys))
